@@ -222,6 +222,38 @@ int main(int argc, char **argv) {
             plan.stages.push_back(st);
         }
         {
+            // a string whose closing quote stands among the four units behind a \\u (alone, in a second half of a pair, padded, in
+            // containers): the string never ends, so the text is not one complete value
+            vx::Stage st;
+            st.name   = "quote-inside-escape";
+            st.chunks = 1;
+            st.fn     = [](int64_t, vx::Ctx &ctx) {
+                static Bufs b;
+                std::vector<std::string> heads = {"\"", "\"abc", " \t\"", "\"\\n", "\"\\uD83D", "\"\\u0041"};
+                std::vector<std::string> tails = {"\\u\"", "\\u0\"", "\\u00\"", "\\u004\"", "\\u\"\"\"\"", "\\uD83D\\uDE0\"", "\\uD83D\\u\"", "\\U00e\""};
+                for (auto &h : heads) {
+                    for (auto &t : tails) {
+                        for (const char *wrap : {"", "[", "{\"k\":"}) {
+                            if (!ctx.next()) {
+                                continue;
+                            }
+                            const std::string doc = std::string(wrap) + h + t;
+                            if (ctx.want_desc()) {
+                                ctx.describe("document " + doc);
+                            }
+                            ctx.acc.count("states");
+                            ctx.acc.count("distinct");
+                            must_reject<char>(T(doc.c_str()), "quote-inside-escape", b.e8, ctx);
+                            must_reject<char16_t>(T(doc.c_str()), "quote-inside-escape", b.e16, ctx);
+                            must_reject<char32_t>(T(doc.c_str()), "quote-inside-escape", b.e32, ctx);
+                            ledger_ok(ctx, doc);
+                        }
+                    }
+                }
+            };
+            plan.stages.push_back(st);
+        }
+        {
             // documents with a high-surrogate escape that no low one follows (legal by the RFC grammar): the escape ends where its
             // four digits end - it must not take the closing quote, a comma or a bracket with it
             vx::Stage st;
